@@ -308,6 +308,10 @@ UNCONDITIONALLY (also when no host was new); then `for host: fallback.AddHost(ho
 def TA.addHosts (t : TA) (hs : List Host) : TA :=
   let t1 : TA := { t with hosts := hs.foldl (fun l h => (cowAdd l h).1) t.hosts }
   { t1.refresh with pol := hs.foldl Pol.add t.pol }
+/-- `SetPartitioner(p)` with a supported partitioner name: `if t.partitioner != p { t.partitioner = p; resetTokenRing;
+updateAllReplicas }` - the ring comes into being from the hosts already known, every held table (and the session
+keyspace's) is computed; a second call with the same name changes nothing -/
+def TA.setPartitioner (t : TA) : TA := if t.partSet then t else ({ t with partSet := true }).refresh
 def TA.hostUp (t : TA) (h : Host) : TA := { t with pol := t.pol.add h }
 def TA.hostDown (t : TA) (h : Host) : TA := { t with pol := t.pol.remove h }
 
